@@ -135,11 +135,12 @@ def session():
 def ksel():
     import c16
     rep = Rep("C16", "quick", 0, "model_checking")
-    good = {"mode": "unsup", "lo": 1, "hi": 4, "evals": [{"k": 1, "score": 3}, {"k": 2, "score": 2}, {"k": 3, "score": 2}, {"k": 4, "score": 5}], "top": 9, "best_k": 2, "final_arcs_k": 2, "final_pdf_k": 2}
+    good = {"mode": "unsup", "lo": 1, "hi": 4, "evals": [{"k": 1, "score": 3}, {"k": 2, "score": 2}, {"k": 3, "score": 2}, {"k": 4, "score": 5}], "top": 9, "best_k": 2, "final_arcs_k": 2, "final_pdf_k": 2, "final_pdf_same": 1}
     bad1 = dict(good, best_k=3)
     bad2 = dict(good, final_arcs_k=4)
     bad3 = dict(good, evals=good["evals"][:2])
-    path = H.write_json(os.path.join(H.subdir("selftest"), "ks.json"), [good, bad1, bad2, bad3])
+    bad4 = dict(good, final_pdf_same=0)
+    path = H.write_json(os.path.join(H.subdir("selftest"), "ks.json"), [good, bad1, bad2, bad3, bad4])
     res = H.run_tlc("KSelectTrace", "KSelectTrace.cfg", workers=1, env={"TRACE_FILE": path}, timeout=300, tag="self-ks")
     pr = {p[0]: p[1:] for p in res.prints if p and isinstance(p[0], str)}
     bad = {tid: set(B["__set__"]) for tid, B in pr["PBAD"][0]["__set__"]}
@@ -147,6 +148,7 @@ def ksel():
     expect("KSelectTrace rejects the last tied k", "best_k_is_not_smallest_k_with_best_criterion" in bad.get(2, ()))
     expect("KSelectTrace rejects a final model built with another k", "final_model_not_built_with_best_k" in bad.get(3, ()))
     expect("KSelectTrace rejects an early stop without a zero cut", "stopped_evaluating_without_a_zero_cut" in bad.get(4, ()))
+    expect("KSelectTrace rejects a final density model that is not the one of a graph built with best_k", "final_density_model_is_not_that_of_a_graph_built_with_best_k" in bad.get(5, ()))
 
 
 def main():
